@@ -29,22 +29,24 @@ META = {
                   "rejected, routing key splits back into the key components) on the definition; each case is then run on "
                   "the real objects and .values, raised-or-not and .routing_key must equal the definition.",
     "level_note": "Trusted: TLC, the transcription of the statement into Bind.tla, harness/wire.py (PREPARED body). Column types "
-                  "are int/text only (value encodings are Codec.tla's concern); MaxCols = 3 with one value per column (quick) / 4 with one value and 3 with two values incl. a negative int and the empty string (thorough). Where the "
+                  "are int/text only (value encodings are Codec.tla's concern); MaxCols = 3 with one int value and two text values (a non-empty and the EMPTY string, whose serialization b'' is a key component like any other) per column (quick) / 4 with one value and 3 with two values incl. a negative int and the empty string (thorough). Where the "
                   "statement is silent both outcomes are admitted: a short positional list before v4 that still covers the "
                   "partition key may be rejected or passed on as is; the routing key of a statement whose key component is "
                   "null is unconstrained. Rejection = ValueError or KeyError.",
     "design_ref": "5.6 C30",
 }
 
-WITNESSES = ["Witness_PaddedUnset", "Witness_KeyOrderNotMarkerOrder", "Witness_ShortBeforeV4", "Witness_NullKeyComponent"]
+WITNESSES = ["Witness_PaddedUnset", "Witness_KeyOrderNotMarkerOrder", "Witness_ShortBeforeV4", "Witness_NullKeyComponent",
+             "Witness_EmptySingleKey", "Witness_EmptyInComposite"]
 
 
 def constants(ctx):
     """One TLC run per entry.  thorough: 4 markers with one value per column, and 3 markers with two values."""
-    base = {"MaxPk": 3, "PVs": {3, 4, 5}, "Partial": True, "MTypes": {"int"}, "MMaxPk": 1, "MOps": {"get"}}
-    if ctx.quick:
-        return [dict(base, MaxCols=3, NVals=1)]
-    return [dict(base, MaxCols=4, NVals=1), dict(base, MaxCols=3, NVals=2)]
+    base = {"MaxPk": 3, "PVs": {3, 4, 5}, "Partial": True, "MTypes": {"int"}, "MMaxPk": 1, "MOps": {"get"},
+            "MOrders": {"base_first"}, "MEmpty": False}
+    if ctx.quick:            # text columns: a non-empty and the EMPTY string (an empty key component is not a missing one)
+        return [dict(base, MaxCols=3, NVals=1, NTextVals=2)]
+    return [dict(base, MaxCols=4, NVals=1, NTextVals=1), dict(base, MaxCols=3, NVals=2, NTextVals=2)]
 
 
 class Env:
@@ -130,6 +132,9 @@ def witness_flags(st):
                                                case["pk"][0] > case["pk"][1]),
         "Witness_ShortBeforeV4": bool(out["accept"] and out["reject"]),
         "Witness_NullKeyComponent": bool(out["accept"] and out["rk"]["t"] == "any"),
+        "Witness_EmptySingleKey": bool(out["accept"] and out["rk"]["t"] == "bytes" and len(case["pk"]) == 1 and not out["rk"]["b"]),
+        "Witness_EmptyInComposite": bool(out["accept"] and out["rk"]["t"] == "bytes" and len(case["pk"]) >= 2 and
+                                         any(not out["slots"][j - 1]["b"] for j in case["pk"])),
     }
 
 
@@ -142,7 +147,7 @@ def run(ctx):
     reached = dict.fromkeys(WITNESSES, False)
     probes = {}
     for consts in runs:
-        label = "MaxCols=%d NVals=%d" % (consts["MaxCols"], consts["NVals"])
+        label = "MaxCols=%d NVals=%d NTextVals=%d" % (consts["MaxCols"], consts["NVals"], consts["NTextVals"])
         cfg = tlc.write_cfg(os.path.join(ctx.scratch, "bind.cfg"), constants=consts, invariants=["C30Invariants"], deadlock=False)
         res, states = B.enumerate_cases("Bind", cfg, ctx.scratch, timeout=900 if ctx.quick else 3000)
         ctx.add_tlc(res, "exhaustive " + label)
@@ -184,14 +189,14 @@ def run(ctx):
                     ctx.violation("positional and by-name binding of the same assignment differ: %s" % d,
                                   replay={"agreement": d}, signature=sig)
     ctx.note("constants", [{k: (sorted(v) if isinstance(v, (set, frozenset)) else v) for k, v in c.items()
-                            if k in ("MaxCols", "MaxPk", "PVs", "NVals", "Partial")} for c in runs])
+                            if k in ("MaxCols", "MaxPk", "PVs", "NVals", "NTextVals", "Partial")} for c in runs])
     ctx.note("exhaustive", True)
     # vacuity: the interesting antecedents must occur among the enumerated cases (same predicates as Witness_* in
     # Bind.tla); the thorough tier also has TLC violate each Witness_* on the smallest constants that reach them
     if not all(reached.values()):
         raise tlc.MachineryError("vacuity: not reached: %s" % sorted(k for k, v in reached.items() if not v))
     if not ctx.quick:
-        wconsts = dict(runs[0], MaxCols=2, NVals=1, Partial=False)
+        wconsts = dict(runs[0], MaxCols=2, NVals=1, NTextVals=2, Partial=False)
         for w in WITNESSES:
             wcfg = tlc.write_cfg(os.path.join(ctx.scratch, w + ".cfg"), constants=wconsts, invariants=[w], deadlock=False)
             wres = tlc.check_model("Bind", wcfg, ctx.scratch, timeout=600)
